@@ -7,7 +7,7 @@
    live handler of the next level.  Every waiter has a live handler (todo, new or delayed) on one of its ancestors. *)
 From Coq Require Import List NArith ZArith Bool Lia Permutation.
 From PM Require Import Base.Bytes Base.Outcome Gen.GenRfp Model.Redfish Spec.RedfishSpec Model.RedfishView
-  Proofs.RedfishBase Proofs.RedfishSteps Proofs.RedfishMgmt Proofs.RedfishRules Proofs.RedfishInv.
+  Proofs.RedfishBase Proofs.RedfishSteps Proofs.RedfishMgmt Proofs.RedfishRules Proofs.RedfishReach Proofs.RedfishInv.
 Import ListNotations.
 
 Ltac inapp := rewrite ?in_app_iff in *; cbn [In] in *; tauto.
@@ -17,6 +17,8 @@ Lemma cnt_app n a b : cnt n (a ++ b) = cnt n a + cnt n b.
 Proof. apply count_occ_app. Qed.
 Lemma cnt_nil n : cnt n [] = 0.
 Proof. reflexivity. Qed.
+Lemma cnt_in n l : cnt n l > 0 -> In n l.
+Proof. unfold cnt. intros H. now apply (count_occ_In text_eq_dec). Qed.
 
 (* weight of a message: what it can still cost in follow-up polls *)
 Definition wgt (m : pmsg) : nat := if m_poll m then 1 else if cmd_is_stat (m_cmd m) then 0 else 2.
@@ -104,7 +106,9 @@ Record minv (d : nat) (stale todo new : list pmsg) (st : state) (K U : list name
   mi_on : c = COn -> forall m w, In m (todo ++ new ++ s_delayed st ++ s_wait st) -> m_out m = true -> In w (s_wait st) ->
           ~ In (m_plug m) (anc tab (m_plug w));
   mi_acct : forall n, cnt n (pend (todo ++ new ++ s_delayed st ++ s_wait st)) + cnt n (tres (s_out st)) = cnt n K;
-  mi_unk : tunk (s_out st) = U }.
+  mi_unk : tunk (s_out st) = U;
+  mi_ts : c = CStat -> s_tstat st = s_tstat b;
+  mi_log : forall c' p, In (EvOp c' p) (s_log st) -> c' = c /\ c <> CStat /\ In p K }.
 
 Lemma same_cfg_has_path st p : same_cfg st b -> has_path st CStat p = has_path b CStat p.
 Proof. intros (_&_&_&E&_&E1&_). unfold has_path, get_path. now rewrite E, E1. Qed.
@@ -119,7 +123,7 @@ Lemma pw_inv d stale m todo new st st0 s K U :
       <= wsum ((m :: todo) ++ new ++ s_delayed st ++ s_wait st) /\
     (status_is_on s = false \/ (forall w, In w (s_wait st) -> ~ In (m_plug m) (anc tab (m_plug w))) -> add = []).
 Proof.
-  intros [CFG FL ACT COV OLD TODO NEW DL POLL WAIT ON ACCT UNK] G0 W0 SON.
+  intros [CFG FL ACT COV OLD TODO NEW DL POLL WAIT ON ACCT UNK TSC LOG] G0 W0 SON.
   set (A := m_plug m) in *.
   destruct (OLD m) as [WM DM]; [apply in_or_app; right; now left|].
   destruct WM as [[CA PA] (pda & LA & _) WMO WMS WMP].
@@ -213,12 +217,138 @@ Proof.
       cbn [app] in ACCT. rewrite pend_cons in ACCT.
       repeat first [rewrite pend_app | rewrite cnt_app]. repeat first [rewrite pend_app in ACCT | rewrite cnt_app in ACCT]. rewrite QS, cnt_nil. lia.
     + rewrite US, U0. exact UNK.
+    + rewrite TS'. exact TSC.
+    + assert (s_log st' = s_log st) as -> by (destruct KS as (_&_&_&E&_); destruct K0 as (_&_&_&E0&_); congruence). exact LOG.
   - rewrite W, DL'. pose proof (wsum_classes tab A s wt) as WC. fold MV KP in WC.
     assert (QS : wsum qs = 0).
     { clear - Q. induction qs as [|q r IH]; [reflexivity|]. rewrite wsum_cons, IH by (intros; apply Q; now right).
       destruct (Q q (or_introl eq_refl)) as (_ & pd & _ & _ & _ & ->). reflexivity. }
     cbn [app]. rewrite wsum_cons, !wsum_app, QS. lia.
   - exact NOADD.
+Qed.
+
+
+(* ------------------------------------------------------------------ the simulated operation *)
+Lemma status_cmd_cases s : status_is_cmd s c = true -> (c = COn /\ s = SOn) \/ (c = COff /\ s = SOff).
+Proof. destruct s, c; vm_compute; intros H; try discriminate H; auto. Qed.
+
+Lemma flip_lookup st m k : m_cmd m = c -> c <> CStat ->
+  (k = m_plug m \/ exists s0, ts_lookup (s_tstat st) k = Some s0 /\ status_is_cmd s0 c = true) ->
+  exists s1, ts_lookup (s_tstat (flip st m)) k = Some s1 /\ status_is_cmd s1 c = true.
+Proof.
+  intros EC NS H. unfold flip. rewrite EC. destruct c; [congruence| |].
+  - change (cmd_is_on COn) with true. cbv iota. cbn [s_tstat set_tstat set_log].
+    destruct (text_eq_dec k (m_plug m)) as [->|NE]; [rewrite ts_lookup_update_same; eauto|].
+    rewrite ts_lookup_update_other by exact NE. destruct H as [H|H]; [congruence | exact H].
+  - change (cmd_is_on COff) with false. cbv iota. cbn [s_tstat set_tstat set_log s_tab].
+    rewrite (ts_lookup_map_off (fun n => is_desc (s_tab st) n (m_plug m))).
+    destruct (text_eq_dec k (m_plug m)) as [->|NE].
+    + rewrite ts_lookup_update_same. exists SOff. split; [now destruct (is_desc _ _ _) | reflexivity].
+    + rewrite ts_lookup_update_other by exact NE. destruct H as [H|(s0 & L0 & C0)]; [congruence|]. rewrite L0.
+      destruct s0; try (vm_compute in C0; discriminate C0). exists SOff. split; [now destruct (is_desc _ _ _) | reflexivity].
+Qed.
+
+Lemma flip_cov st m n : ts_lookup (s_tstat st) n <> None -> ts_lookup (s_tstat (flip st m)) n <> None.
+Proof.
+  intros H. unfold flip. destruct (cmd_is_on (m_cmd m)); cbn [s_tstat set_tstat set_log s_tab].
+  - now apply ts_update_keeps.
+  - rewrite (ts_lookup_map_off (fun k => is_desc (s_tab st) k (m_plug m))).
+    pose proof (ts_update_keeps (s_tstat st) (m_plug m) SOff n H) as K0. destruct (ts_lookup (ts_update (s_tstat st) (m_plug m) SOff) n); [discriminate | contradiction].
+Qed.
+
+Lemma flip_frame st m : same_cfg (flip st m) st /\ s_active (flip st m) = s_active st /\ s_wait (flip st m) = s_wait st /\
+  s_delayed (flip st m) = s_delayed st /\ s_out (flip st m) = s_out st /\ s_fault (flip st m) = s_fault st.
+Proof. unfold flip. destruct (cmd_is_on (m_cmd m)); repeat split. Qed.
+
+(* ------------------------------------------------------------------ one message of the pass copy *)
+Lemma step_inv d stale m todo new st K U :
+  minv d stale (m :: todo) new st K U ->
+  exists add, minv d (stale ++ [m]) todo (new ++ add) (process_msg st m) K U /\
+    wsum (todo ++ (new ++ add) ++ s_delayed (process_msg st m) ++ s_wait (process_msg st m)) + (if m_poll m then 1 else 0)
+      <= wsum ((m :: todo) ++ new ++ s_delayed st ++ s_wait st) /\
+    (m_poll m = true -> add = []).
+Proof.
+  intros INV. pose proof INV as [CFG FL ACT COV OLD TODO NEW DL POLL WAIT ON ACCT UNK TSC LOG].
+  destruct (OLD m) as [WM DM]; [apply in_or_app; right; now left|].
+  pose proof WM as [[CA PA] (pda & LA & EP & EH) WMO WMS WMP].
+  assert (WG : (if m_poll m then 1 else 0) <= wgt m) by (unfold wgt; destruct (m_poll m); lia).
+  assert (ETAB : s_tab st = tab) by (destruct CFG as (_&_&_&E&_); exact E).
+  assert (NV : name_valid tab (m_plug m) = true) by (apply name_valid_lookup; eauto).
+  assert (G0 : forall f a, grows st (if m_out m then emitf st (TResult (m_plug m)) f a else st) [] (pend [m]) /\
+                           s_wait (if m_out m then emitf st (TResult (m_plug m)) f a else st) = s_wait st).
+  { intros f a. rewrite pend_one. destruct (m_out m); split; try reflexivity; [apply grows_emit_result | apply grows_refl]. }
+  unfold process_msg. destruct (mem (m_host m) (s_fail st)) eqn:FAIL.
+  { (* the host fails *)
+    destruct (G0 f_shell_error [m_plug m]) as [G W].
+    destruct (pw_inv d stale m todo new st _ SErr K U INV G W) as (add & I' & WS & Z); [discriminate|].
+    exists add. split; [exact I'|]. split; [lia|]. intros _. apply Z. now left. }
+  destruct (cmd_is_stat (m_cmd m)) eqn:CS.
+  { (* a query *)
+    assert (EC : m_cmd m = CStat) by (destruct (m_cmd m); [reflexivity | discriminate CS | discriminate CS]).
+    assert (NP : m_poll m = false).
+    { destruct (m_poll m) eqn:E; [|reflexivity]. destruct (WMP eq_refl) as [NS O]. rewrite (WMO O) in EC. congruence. }
+    unfold stat_process. destruct (ts_lookup (s_tstat st) (m_plug m)) as [s|] eqn:TL; [|exfalso; eapply COV; eassumption].
+    destruct (G0 f_stat_result [m_plug m; status_text s]) as [G W].
+    destruct (pw_inv d stale m todo new st _ s K U INV G W) as (add & I' & WS & Z).
+    { intros _. left. apply TODO; [now left | exact NP]. }
+    exists add. split; [exact I'|]. split; [lia|]. rewrite NP. discriminate. }
+  assert (NS : m_cmd m <> CStat) by (intros E; rewrite E in CS; discriminate CS).
+  assert (OM : m_out m = true). { destruct (m_out m) eqn:E; [reflexivity|]. destruct (WMS eq_refl). congruence. }
+  assert (EC : m_cmd m = c) by auto.
+  unfold on_off_process. destruct (m_poll m) eqn:PM.
+  { (* the follow-up poll sees the status the operation set *)
+    destruct (POLL m) as (s & TL & SC); [now left | exact PM|]. rewrite TL, EC, SC.
+    assert (G : grows st (emitf st (TResult (m_plug m)) f_onoff_ok [m_plug m]) [] (pend [m])) by (rewrite pend_one, OM; apply grows_emit_result).
+    assert (NB : status_is_on s = true -> forall w, In w (s_wait st) -> ~ In (m_plug m) (anc tab (m_plug w))).
+    { intros S w Iw. destruct (status_cmd_cases _ SC) as [[E _]|[_ ->]]; [|discriminate S]. apply (ON E) with (m := m); [now left | exact OM | exact Iw]. }
+    destruct (pw_inv d stale m todo new st _ s K U INV G eq_refl) as (add & I' & WS & Z); [intros S; right; now apply NB|].
+    exists add. split; [exact I'|]. split; [unfold wgt in WS; rewrite PM in WS; exact WS|]. intros _. apply Z.
+    destruct (status_is_on s) eqn:S; [right; now apply NB | now left]. }
+  (* the operation itself: status flipped, follow-up poll queued *)
+  unfold poll_or_fail, send_status_poll. rewrite ETAB, LA.
+  assert (GP : exists lp, get_path st CStat pda = Some lp).
+  { pose proof (PA (m_plug m) (or_introl eq_refl)) as HP. rewrite <- (same_cfg_has_path st _ CFG) in HP.
+    destruct (has_path_get _ _ _ HP) as (pd' & lp & L' & GP'). rewrite ETAB, LA in L'. inversion L'; subst pd'. eauto. }
+  destruct GP as [lp ->].
+  set (pl := mkMsg (m_cmd m) (m_host m) (m_plug m) (m_parent m) true true).
+  set (st1 := add_delayed st pl).
+  destruct (flip_frame st1 m) as (FC & FA & FW & FD & FO & FF).
+  assert (WPL : wfm pl).
+  { split; cbn [pl m_plug m_parent m_host m_out m_cmd m_poll]; [split; assumption | eauto | auto | discriminate | intros _; split; [congruence | reflexivity]]. }
+  assert (NSc : c <> CStat) by congruence.
+  exists []. rewrite app_nil_r. split; [|split; [|reflexivity]].
+  - split.
+    + eapply same_cfg_trans; [exact FC | exact CFG].
+    + rewrite FF. exact FL.
+    + rewrite FA. cbn [st1 add_delayed set_delayed s_active]. rewrite ACT, <- app_assoc. reflexivity.
+    + intros n V. apply flip_cov. now apply COV.
+    + intros x I. apply OLD. rewrite <- app_assoc in I. exact I.
+    + intros x I. apply TODO. now right.
+    + exact NEW.
+    + rewrite FD. cbn [st1 add_delayed set_delayed s_delayed]. intros x I. apply in_app_or in I as [I|[<-|[]]]; [now apply DL|].
+      split; [exact WPL|]. split; [reflexivity | exact DM].
+    + rewrite FD. cbn [st1 add_delayed set_delayed s_delayed]. intros x I PX. apply (flip_lookup st1 m (m_plug x) EC NSc).
+      rewrite app_assoc in I. apply in_app_or in I as [I|[<-|[]]]; [|now left].
+      right. apply POLL; [|exact PX]. clear - I. inapp.
+    + rewrite FW, FD. cbn [st1 add_delayed set_delayed s_delayed s_wait]. intros w I. destruct (WAIT w I) as (WW & OW & PW & (h & Ih & IHA)).
+      split; [exact WW|]. split; [exact OW|]. split; [exact PW|]. destruct Ih as [<-|Ih].
+      * exists pl. split; [|exact IHA]. clear. inapp.
+      * exists h. split; [|exact IHA]. clear - Ih. inapp.
+    + rewrite FW, FD. cbn [st1 add_delayed set_delayed s_delayed s_wait]. intros E x w Ix OX Iw.
+      assert (H : In x ((m :: todo) ++ new ++ s_delayed st ++ s_wait st) \/ pl = x) by (clear - Ix; inapp).
+      destruct H as [H| <-]; [now apply (ON E) with (m := x)|]. apply (ON E) with (m := m); [now left | exact OM | exact Iw].
+    + rewrite FW, FD, FO. cbn [st1 add_delayed set_delayed s_delayed s_wait s_out]. intros n. specialize (ACCT n).
+      cbn [app] in ACCT. rewrite pend_cons in ACCT.
+      repeat first [rewrite pend_app | rewrite cnt_app]. repeat first [rewrite pend_app in ACCT | rewrite cnt_app in ACCT].
+      assert (pend [pl] = pend [m]) as -> by (rewrite !pend_one, OM; reflexivity). lia.
+    + rewrite FO. exact UNK.
+    + intros E. congruence.
+    + assert (s_log (flip st1 m) = s_log st ++ [EvOp (m_cmd m) (m_plug m)]) as -> by (unfold flip; destruct (cmd_is_on (m_cmd m)); reflexivity).
+      intros c' p I. apply in_app_or in I as [I|[I|[]]]; [now apply LOG|]. inversion I; subst c' p. split; [exact EC|]. split; [exact NSc|].
+      apply (cnt_in (m_plug m)). specialize (ACCT (m_plug m)). cbn [app] in ACCT. rewrite pend_cons, cnt_app, pend_one, OM in ACCT.
+      unfold cnt at 1 in ACCT. cbn [count_occ] in ACCT. destruct (text_eq_dec (m_plug m) (m_plug m)); [lia | congruence].
+  - rewrite FW, FD. cbn [st1 add_delayed set_delayed s_delayed s_wait app]. rewrite wsum_cons, !wsum_app, wsum_cons, wsum_nil.
+    assert (wgt pl = 1) as -> by reflexivity. assert (wgt m = 2) as -> by (unfold wgt; now rewrite PM, CS). lia.
 Qed.
 
 End Live.
